@@ -16,10 +16,12 @@
 #include <Bpp/Numeric/Prob/ExponentialDiscreteDistribution.h>
 #include <Bpp/Numeric/Prob/TruncatedExponentialDiscreteDistribution.h>
 #include <Bpp/Numeric/Prob/BetaDiscreteDistribution.h>
+#include <Bpp/Numeric/Prob/UniformDiscreteDistribution.h>
 #include <Bpp/Numeric/Hmm/FullHmmTransitionMatrix.h>
 #include <Bpp/Numeric/AbstractParametrizable.h>
 #include <algorithm>
 #include <cmath>
+#include <limits>
 #include <memory>
 #include <random>
 #include <csignal>
@@ -77,25 +79,42 @@ static std::unique_ptr<FullHmmTransitionMatrix> makeHmm(size_t n, const std::vec
 
 // ---------------------------------------------------------------- statistics (exploration)
 // Kolmogorov-Smirnov distance between the sample and the library's own cdf
-template<class Draw, class Cdf> static std::string ks(size_t n, Draw draw, Cdf cdf) {
+// With `cens` the sample is compared with the cdf *conditionally on x < cens*: D' = sup |F_n'(x) - F(x)/F(cens)| over
+// the n' sample points below cens, plus the deviation |n'/n - F(cens)| of the mass below cens, reported separately.
+// Used for the beta law, whose mass piles up within one ulp of 1 when beta is small (Beta(a, 0.1): about 3 % above
+// 1 - 1.1e-16): there doubles cannot resolve the cdf, qBeta returns 1 - 2.22e-16 or 1.0 (C08's kernel, not a
+// sampler defect), and BetaDiscreteDistribution::randC rejects the value 1.0 (open upper bound).  Given n', the
+// points below cens are an i.i.d. sample of the conditional law, so the DKW bound applies with n'.
+template<class Draw, class Cdf> static std::string ks(size_t n, Draw draw, Cdf cdf, double cens = std::numeric_limits<double>::infinity()) {
   std::vector<double> x(n);
   for (size_t i = 0; i < n; ++i) x[i] = draw();
   std::sort(x.begin(), x.end());
+  for (size_t i = 0; i < n; ++i) if (!(x[i] == x[i])) return "nan " + std::to_string(n);
+  size_t m = n;                                  // number of points below cens
+  double Fc = 1.;
+  const bool censored = cens < std::numeric_limits<double>::infinity();
+  if (censored) {
+    m = static_cast<size_t>(std::lower_bound(x.begin(), x.end(), cens) - x.begin());
+    Fc = cdf(cens);
+    if (!(Fc == Fc) || !(Fc > 0.)) return "nan " + std::to_string(n);
+  }
   double D = 0;
-  bool bad = false;
-  for (size_t i = 0; i < n; ++i) {
-    if (!(x[i] == x[i])) { bad = true; break; }
-    double F = cdf(x[i]);
-    if (!(F == F)) { bad = true; break; }
-    double lo = F - static_cast<double>(i) / static_cast<double>(n);
-    double hi = static_cast<double>(i + 1) / static_cast<double>(n) - F;
+  for (size_t i = 0; i < m; ++i) {
+    double F = cdf(x[i]) / Fc;
+    if (!(F == F)) return "nan " + std::to_string(n);
+    double lo = F - static_cast<double>(i) / static_cast<double>(m);
+    double hi = static_cast<double>(i + 1) / static_cast<double>(m) - F;
     D = std::max(D, std::max(lo, hi));
   }
-  if (bad) return "nan " + std::to_string(n);
   // sample mean travels too (only informative)
-  double m = 0; for (double v : x) m += v; m /= static_cast<double>(n);
-  return doubleToHex(D) + " " + std::to_string(n) + " " + doubleToHex(m);
+  double mean = 0; for (double v : x) mean += v; mean /= static_cast<double>(n);
+  std::string r = doubleToHex(D) + " " + std::to_string(m) + " " + doubleToHex(mean);
+  if (censored) r += " " + doubleToHex(std::fabs(static_cast<double>(m) / static_cast<double>(n) - Fc));
+  return r;
 }
+
+// upper end of the region in which the beta cdf is compared (see `ks`)
+static const double BETA_CENS = 1. - 1e-9;
 
 static std::string opKs(const Toks& t) {
   const std::string& fam = t[1];
@@ -105,15 +124,18 @@ static std::string opKs(const Toks& t) {
   if (fam == "gauss") return ks(n, [&] { return RandomTools::randGaussian(p[0], p[1]); }, [&](double x) { return RandomTools::pNorm(x, p[0], std::sqrt(p[1])); });
   if (fam == "gamma1") return ks(n, [&] { return RandomTools::randGamma(p[0]); }, [&](double x) { return RandomTools::pGamma(x, p[0], 1.); });
   if (fam == "gamma2") return ks(n, [&] { return RandomTools::randGamma(p[0], p[1]); }, [&](double x) { return RandomTools::pGamma(x, p[0], p[1]); });
-  if (fam == "beta") return ks(n, [&] { return RandomTools::randBeta(p[0], p[1]); }, [&](double x) { return RandomTools::pBeta(x, p[0], p[1]); });
+  if (fam == "beta") return ks(n, [&] { return RandomTools::randBeta(p[0], p[1]); }, [&](double x) { return RandomTools::pBeta(x, p[0], p[1]); }, BETA_CENS);
   // the library's own cdf of "exponential with this mean": ExponentialDiscreteDistribution(lambda = 1/mean).pProb
   if (fam == "expo") { ExponentialDiscreteDistribution d(2, 1. / p[0]); return ks(n, [&] { return RandomTools::randExponential(p[0]); }, [&](double x) { return d.pProb(x); }); }
   // distribution-level continuous draws against the same object's pProb
   if (fam == "dGamma") { GammaDiscreteDistribution d(4, p[0], p[1]); return ks(n, [&] { return d.randC(); }, [&](double x) { return d.pProb(x); }); }
+  // offset + Gamma(alpha, beta): p = alpha, beta, offset
+  if (fam == "dGammaOff") { GammaDiscreteDistribution d(4, p[0], p[1], 0.05, 0.05, true, p[2]); return ks(n, [&] { return d.randC(); }, [&](double x) { return d.pProb(x); }); }
+  if (fam == "dUnif") { UniformDiscreteDistribution d(4, p[0], p[1]); return ks(n, [&] { return d.randC(); }, [&](double x) { return d.pProb(x); }); }
   if (fam == "dGauss") { GaussianDiscreteDistribution d(4, p[0], p[1]); return ks(n, [&] { return d.randC(); }, [&](double x) { return d.pProb(x); }); }
   if (fam == "dExpo") { ExponentialDiscreteDistribution d(4, p[0]); return ks(n, [&] { return d.randC(); }, [&](double x) { return d.pProb(x); }); }
   if (fam == "dTExpo") { TruncatedExponentialDiscreteDistribution d(4, p[0], p[1]); return ks(n, [&] { return d.randC(); }, [&](double x) { return d.pProb(x); }); }
-  if (fam == "dBeta") { BetaDiscreteDistribution d(4, p[0], p[1]); return ks(n, [&] { return d.randC(); }, [&](double x) { return d.pProb(x); }); }
+  if (fam == "dBeta") { BetaDiscreteDistribution d(4, p[0], p[1]); return ks(n, [&] { return d.randC(); }, [&](double x) { return d.pProb(x); }, BETA_CENS); }
   return "bad-op";
 }
 
@@ -125,6 +147,17 @@ static std::string opChi2(const Toks& t) {
   size_t k = w.size();
   std::vector<size_t> cnt(k + 1, 0); // last cell: anything outside 0..k-1
   auto hit = [&](size_t i) { cnt[i < k ? i : k]++; };
+  if (kind == "pairs" || kind == "pairsw") {
+    // the pair (first, second) element of a sample with replacement of size 2: k*k cells (+ 1 for anything else)
+    std::vector<size_t> c2(k * k + 1, 0);
+    std::vector<size_t> v(k); std::iota(v.begin(), v.end(), 0);
+    for (size_t i = 0; i < N; ++i) {
+      std::vector<size_t> out(2);
+      if (kind == "pairs") RandomTools::getSample(v, out, true); else RandomTools::getSample(v, w, out, true);
+      c2[out[0] < k && out[1] < k ? out[0] * k + out[1] : k * k]++;
+    }
+    return showI(c2).substr(1);
+  }
   if (kind == "pickwc") {
     std::vector<size_t> v(k); std::iota(v.begin(), v.end(), 0);
     for (size_t i = 0; i < N; ++i) hit(RandomTools::pickOne(const_cast<const std::vector<size_t>&>(v), const_cast<const std::vector<double>&>(w)));
@@ -148,6 +181,22 @@ static std::string opChi2(const Toks& t) {
     // first element of a weighted sample without replacement of size 1
     std::vector<size_t> v(k); std::iota(v.begin(), v.end(), 0);
     for (size_t i = 0; i < N; ++i) { std::vector<size_t> out(1); RandomTools::getSample(v, w, out, false); hit(out[0]); }
+  } else if (kind == "samplewfull") {
+    // first element of a weighted sample without replacement as long as the source: still a weighted pick
+    std::vector<size_t> v(k); std::iota(v.begin(), v.end(), 0);
+    for (size_t i = 0; i < N; ++i) { std::vector<size_t> out(k); RandomTools::getSample(v, w, out, false); hit(out[0]); }
+  } else if (kind == "samplewr") {
+    // every element of weighted samples WITH replacement that are longer than the source (size k + 3)
+    std::vector<size_t> v(k); std::iota(v.begin(), v.end(), 0);
+    for (size_t i = 0; i < N; i += k + 3) { std::vector<size_t> out(k + 3); RandomTools::getSample(v, w, out, true); for (size_t x : out) hit(x); }
+  } else if (kind == "samplewe") {
+    // ... and of samples exactly as long as the source
+    std::vector<size_t> v(k); std::iota(v.begin(), v.end(), 0);
+    for (size_t i = 0; i < N; i += k) { std::vector<size_t> out(k); RandomTools::getSample(v, w, out, true); for (size_t x : out) hit(x); }
+  } else if (kind == "pickw") {
+    // the non-const weighted overload with replacement
+    std::vector<size_t> v(k); std::iota(v.begin(), v.end(), 0); std::vector<double> w2(w);
+    for (size_t i = 0; i < N; ++i) hit(RandomTools::pickOne(v, w2, true));
   } else if (kind == "shuffle") {
     // position taken by element 0 in a full sample without replacement (uniform over k positions)
     std::vector<size_t> v(k); std::iota(v.begin(), v.end(), 0);
@@ -207,6 +256,23 @@ static std::string opChi2Rc(const Toks& t) {
   return showI(cnt).substr(1);
 }
 
+// cells (0,0),(0,1) of N random 2x3 tables (shape "r") or cells (0,0),(1,0) of N random 3x2 tables (shape "c"):
+// chi2rc3 <N> <r|c> a0 a1 b0 b1 b2   (a: the two margins of the short side, b: the three of the long side;
+// law: multivariate hypergeometric C(b0,x0) C(b1,x1) C(b2,a0-x0-x1) / C(N,a0)); cell index x0 * (b1+1) + x1
+static std::string opChi2Rc3(const Toks& t) {
+  size_t N = toU(t[1]); bool rowShape = t[2] == "r";
+  std::vector<size_t> a = {toU(t[3]), toU(t[4])}, b = {toU(t[5]), toU(t[6]), toU(t[7])};
+  size_t nc = (b[0] + 1) * (b[1] + 1);
+  std::vector<size_t> cnt(nc + 1, 0);
+  ContingencyTableGenerator g(rowShape ? a : b, rowShape ? b : a);
+  for (size_t i = 0; i < N; ++i) {
+    RowMatrix<size_t> tb = g.rcont2();
+    size_t x0 = tb(0, 0), x1 = rowShape ? tb(0, 1) : tb(1, 0);
+    cnt[x0 <= b[0] && x1 <= b[1] ? x0 * (b[1] + 1) + x1 : nc]++;
+  }
+  return showI(cnt).substr(1);
+}
+
 static std::string opRepro(const Toks& t) {
   unsigned long seed = static_cast<unsigned long>(toU(t[1]));
   auto run = [&]() {
@@ -240,6 +306,71 @@ static std::string opRepro(const Toks& t) {
   RandomTools::setSeed(static_cast<std::mt19937::result_type>(seed + 1));
   bool differs = RandomTools::giveRandomNumberBetweenZeroAndEntry(1.0) != a[0];
   return std::string(same ? "1" : "0") + " " + (first ? "1" : "0") + " " + (differs ? "1" : "0");
+}
+
+// ---------------------------------------------------------------- one routine, no hidden state
+// `repro1 <routine> <seed> <pre1> <pre2>`: two executions A and B of
+//     setSeed(other); <routine> called pre times; setSeed(seed); <routine> called 3 times
+// with pre = pre1 resp. pre2.  Answer: the values observed after the second setSeed in A ; in B ; whether the
+// generator ended in the same state.  If the routine is a function of (generator state, arguments) only, A and B
+// agree whatever happened before the seed was set.
+static void reproCall(const std::string& r, std::vector<double>& out) {
+  auto push = [&](double x) { out.push_back(x); };
+  std::vector<int> v = {1, 2, 3, 4, 5, 6, 7};
+  std::vector<double> w = {1, 2, 3, 4, 5, 6, 7};
+  if (r == "giveRandomNumberBetweenZeroAndEntry") push(RandomTools::giveRandomNumberBetweenZeroAndEntry(2.5));
+  else if (r == "giveIntRandomNumberBetweenZeroAndEntry") push(static_cast<double>(RandomTools::giveIntRandomNumberBetweenZeroAndEntry<size_t>(1000)));
+  else if (r == "flipCoin") push(RandomTools::flipCoin(0.3) ? 1. : 0.);
+  else if (r == "randGaussian") push(RandomTools::randGaussian(1., 2.));
+  else if (r == "randGamma1") push(RandomTools::randGamma(0.7));
+  else if (r == "randGamma2") push(RandomTools::randGamma(2.5, 3.));
+  else if (r == "randBeta") push(RandomTools::randBeta(2., 3.));
+  else if (r == "randExponential") push(RandomTools::randExponential(2.));
+  else if (r == "pickOne") { push(RandomTools::pickOne(v, false)); push(RandomTools::pickOne(v, true)); }
+  else if (r == "pickOneConst") push(RandomTools::pickOne(const_cast<const std::vector<int>&>(v)));
+  else if (r == "pickOneW") { push(RandomTools::pickOne(v, w, false)); push(RandomTools::pickOne(v, w, true)); }
+  else if (r == "pickOneWConst") push(RandomTools::pickOne(const_cast<const std::vector<int>&>(v), const_cast<const std::vector<double>&>(w)));
+  else if (r == "getSample") { std::vector<int> o(5); RandomTools::getSample(v, o, false); for (int x : o) push(x); }
+  else if (r == "getSampleRepl") { std::vector<int> o(9); RandomTools::getSample(v, o, true); for (int x : o) push(x); }
+  else if (r == "getSampleW") { std::vector<int> o(4); RandomTools::getSample(v, w, o, false); for (int x : o) push(x); }
+  else if (r == "getSampleWRepl") { std::vector<int> o(9); RandomTools::getSample(v, w, o, true); for (int x : o) push(x); }
+  else if (r == "pickFromCumSum") { std::vector<double> c = {0.1, 0.3, 0.35, 0.8, 1.0}; push(static_cast<double>(RandomTools::pickFromCumSum(c))); }
+  else if (r == "randMultinomial") { for (size_t x : RandomTools::randMultinomial(5, w)) push(static_cast<double>(x)); }
+  else if (r == "rcont2") {
+    ContingencyTableGenerator g(std::vector<size_t>{4, 6, 5}, std::vector<size_t>{7, 5, 3});
+    RowMatrix<size_t> tb = g.rcont2();
+    for (size_t i = 0; i < 3; ++i) for (size_t j = 0; j < 3; ++j) push(static_cast<double>(tb(i, j)));
+  }
+  else if (r == "ContingencyTableTest") {
+    std::vector<std::vector<size_t>> tb = {{6, 2, 3}, {1, 7, 4}};
+    ContingencyTableTest test(tb, 25, false); push(test.getPValue());
+  }
+  else if (r == "discreteRand") { SimpleDiscreteDistribution d(std::vector<double>{1., 2., 5.}, std::vector<double>{0.25, 0.5, 0.25}, 1e-6, true); push(d.rand()); }
+  else if (r == "Gamma::randC") { GammaDiscreteDistribution d(4, 2., 3.); push(d.randC()); push(d.rand()); }
+  else if (r == "Gaussian::randC") { GaussianDiscreteDistribution d(4, 1., 2.); push(d.randC()); push(d.rand()); }
+  else if (r == "Exponential::randC") { ExponentialDiscreteDistribution d(4, 2.); push(d.randC()); push(d.rand()); }
+  else if (r == "TruncExponential::randC") { TruncatedExponentialDiscreteDistribution d(4, 2., 3.); push(d.randC()); push(d.rand()); }
+  else if (r == "Beta::randC") { BetaDiscreteDistribution d(4, 2., 3.); push(d.randC()); push(d.rand()); }
+  else if (r == "Uniform::randC") { UniformDiscreteDistribution d(4, -1., 3.); push(d.randC()); push(d.rand()); }
+  else if (r == "hmmSample") { auto tm = makeHmm(2, std::vector<double>{0.9, 0.1, 0.2, 0.8}); for (size_t x : tm->sample(6)) push(static_cast<double>(x)); }
+  else throw Exception("unknown routine " + r);
+}
+
+static std::string opRepro1(const Toks& t) {
+  const std::string& r = t[1];
+  auto seed = static_cast<std::mt19937::result_type>(toU(t[2]));
+  size_t pre[2] = {toU(t[3]), toU(t[4])};
+  std::vector<double> obs[2];
+  std::mt19937 fin[2];
+  for (int k = 0; k < 2; ++k) {
+    std::vector<double> junk;
+    RandomTools::setSeed(static_cast<std::mt19937::result_type>(seed * 7919u + 17u + static_cast<unsigned>(k)));
+    for (size_t i = 0; i < pre[k]; ++i) reproCall(r, junk);
+    RandomTools::setSeed(seed);
+    for (int i = 0; i < 3; ++i) reproCall(r, obs[k]);
+    fin[k] = RandomTools::DEFAULT_GENERATOR;
+  }
+  return showD(obs[0]) + " ;" + showD(obs[1]) + " ; " + (fin[0] == fin[1] ? "1" : "0");
 }
 
 static std::string op(const Toks& t) {
@@ -318,14 +449,43 @@ static std::string op(const Toks& t) {
     unsigned int nb = static_cast<unsigned int>(toU(t[1])); size_t nr = toU(t[2]), nc = toU(t[3]);
     std::vector<std::vector<size_t>> tb(nr, std::vector<size_t>(nc));
     for (size_t i = 0; i < nr; ++i) for (size_t j = 0; j < nc; ++j) tb[i][j] = toU(t[4 + i * nc + j]);
+    const std::mt19937 g0 = RandomTools::DEFAULT_GENERATOR;
     ContingencyTableTest test(tb, nb, false);
-    return doubleToHex(test.getStatistic()) + " " + doubleToHex(test.getPValue()) + " " + doubleToHex(test.getDegreesOfFreedom());
+    const std::mt19937 g1 = RandomTools::DEFAULT_GENERATOR;
+    std::vector<size_t> m1 = test.getMarginRows(), m2 = test.getMarginColumns();
+    std::string s = doubleToHex(test.getStatistic()) + " " + doubleToHex(test.getPValue()) + " " + doubleToHex(test.getDegreesOfFreedom());
+    s += " ;" + showI(m1) + " ;" + showI(m2) + " ;";
+    // Replay: the statistics of the nb tables that rcont2() returns from the generator state the constructor
+    // started in (same expression as ContingencyTableTest.cpp:70-96), and whether the constructor left the
+    // generator in the state reached after exactly these nb tables.
+    RandomTools::DEFAULT_GENERATOR = g0;
+    if (nb > 0) {
+      size_t tot = 0; for (size_t x : m1) tot += x;
+      RowMatrix<long double> expc(nr, nc);
+      for (size_t i = 0; i < nr; ++i) for (size_t j = 0; j < nc; ++j)
+        expc(i, j) = static_cast<long double>(m1[i] * m2[j]) / static_cast<long double>(tot);
+      ContingencyTableGenerator ctgen(m1, m2);
+      for (unsigned int k = 0; k < nb; ++k) {
+        RowMatrix<size_t> rep = ctgen.rcont2();
+        double stat_rep = 0;
+        for (size_t i = 0; i < nr; ++i) for (size_t j = 0; j < nc; ++j) {
+          long double c = rep(i, j); long double e = expc(i, j);
+          stat_rep += static_cast<double>(std::pow(c - e, 2.L) / e);
+        }
+        s += " " + doubleToHex(stat_rep);
+      }
+    }
+    bool same = RandomTools::DEFAULT_GENERATOR == g1;
+    RandomTools::DEFAULT_GENERATOR = g1;
+    return s + " ; " + (same ? "1" : "0");
   }
   if (o == "ks") return opKs(t);
   if (o == "chi2") return opChi2(t);
   if (o == "chi2d") return opChi2Dist(t);
   if (o == "chi2rc") return opChi2Rc(t);
+  if (o == "chi2rc3") return opChi2Rc3(t);
   if (o == "repro") return opRepro(t);
+  if (o == "repro1") return opRepro1(t);
   return "bad-op";
 }
 
